@@ -328,7 +328,9 @@ class PDFContentParser(PSStackParser[Union[PSKeyword, PDFStream]]):
                     self.charpos -= 1
                     i += 1
                 else:
-                    i = 0
+                    # The byte that breaks a partial match may itself start
+                    # the end marker ("...EEI " or "...EIEI ").
+                    i = 1 if ci == target[0] else 0
             else:
                 try:
                     j = self.buf.index(target[0], self.charpos)
